@@ -274,7 +274,21 @@ def helper_all_some(ctx, R, kind):
                 top = n
                 break
         if top is None:
-            ctx.missing(R, key, "no match / if-let on the operand facts")
+            # let-else form:  let Some(x) = x else { return None; };
+            les = [n for n in walk(fn["body"]) if n["k"] == "Local" and n.get("else") is not None and n["init"] is not None and set(re.findall(r"\w+", render(n["init"]))) & set(params)]
+            covered = set()
+            okle = True
+            for n in les:
+                elems = n["pat"]["elems"] if n["pat"]["k"] == "PTuple" else [n["pat"]]
+                if not all(render(x).startswith("Some(") for x in elems):
+                    okle = False
+                if "None" not in render(n["else"]):
+                    okle = False
+                covered |= set(re.findall(r"\w+", render(n["init"]))) & set(params)
+            if les and okle and covered == set(params):
+                ctx.ok(R, key, "let-else on every operand fact, returning None", site(EI, fn))
+                continue
+            ctx.missing(R, key, "no match / if-let / let-else on the operand facts")
             continue
         bad = []
         if top["k"] == "Match":
